@@ -713,3 +713,19 @@ pub fn probetzif(a: &Args) {
     }));
     println!("static: {:?}", crate::shared::TzifOwned::parse(None, &data).map(|_| "ok"));
 }
+
+/// jv probeiter NAME SECONDS: preceding/following from an instant in the bundled zone, via bytes.
+pub fn probeiter(a: &Args) {
+    let name = a.rest.get(0).cloned().unwrap_or_default();
+    let secs: i64 = a.rest.get(1).and_then(|s| s.parse().ok()).unwrap_or(0);
+    let (_, bytes) = jiff_tzdb::get(&name).expect("bundled zone");
+    let tz = TimeZone::tzif(&name, bytes).unwrap();
+    let ts = Timestamp::from_second(secs).unwrap();
+    println!("info at {ts}: {:?}", tz.to_offset_info(ts));
+    for t in tz.preceding(ts).take(4) {
+        println!("  prev {} {:?} {} {:?}", t.timestamp(), t.offset(), t.abbreviation(), t.dst());
+    }
+    for t in tz.following(ts).take(3) {
+        println!("  next {} {:?} {} {:?}", t.timestamp(), t.offset(), t.abbreviation(), t.dst());
+    }
+}
